@@ -891,8 +891,15 @@ impl Formatter {
                 // Note: This handles ternary-style if expressions
             }
             Expr::Closure(params, body) => {
+                // Closure parameters are bare names; the parser gives them the placeholder type `_`,
+                // which has no source spelling.
                 self.writer.write("(");
-                self.format_params(params);
+                for (i, param) in params.iter().enumerate() {
+                    if i > 0 {
+                        self.writer.write(", ");
+                    }
+                    self.writer.write(&param.node.name);
+                }
                 self.writer.write(") => ");
                 self.format_expr(&body.node);
             }
